@@ -1512,7 +1512,7 @@ class TargetVol(Algo):
 
         # a scalar target applies to whatever is weighted on this call; expanding
         # it once and for all would freeze the tickers of the first call
-        if isinstance(self.target_volatility, (float, int)):
+        if isinstance(self.target_volatility, (float, int, np.floating, np.integer)):
             target_volatility = {k: self.target_volatility for k in target.temp["weights"].keys()}
         else:
             target_volatility = self.target_volatility
